@@ -3,3 +3,4 @@ import RattrDriver.C04
 import RattrDriver.C03
 import RattrDriver.AstJson
 import RattrDriver.Visit
+import RattrDriver.C20
